@@ -88,7 +88,11 @@ pub trait BlsSignCrypt:
         if shares.len() < 2 {
             return CtOption::new(vec![], 0u8.into());
         }
-        let ua = combine_shares_group(shares).ok().unwrap_or_default();
+        // shares that do not combine (invalid point, duplicate or zero identifier) open nothing
+        let ua = match combine_shares_group(shares) {
+            Ok(ua) => ua,
+            Err(_) => return CtOption::new(vec![], 0u8.into()),
+        };
         Self::decrypt(v, ua, Self::valid(u, v, w, dst))
     }
 
